@@ -241,6 +241,29 @@ fn generate(rng: &mut Rng, tier: &str, w: &mut CaseWriter) {
         let kind = ["bai", "csi", "tbi"][i % 3];
         w.push("idxrt", vec![kind.into(), rng.next().to_string()]);
     }
+    // CSI loffsets after write+read vs the model of the writer's ancestor-chain minimum
+    let n = if thorough { 3000 } else { 150 };
+    for _ in 0..n {
+        let &(ms, d) = rng.pick(&[(14u64, 5u64), (14, 5), (12, 4), (3, 2), (2, 3), (16, 3)]);
+        let maxp = max_position(ms, d);
+        let k = rng.range(0, 14);
+        let mut recs = Vec::new();
+        let mut off = rng.below(1000);
+        let mut s0 = rng.range(1, maxp);
+        if rng.chance(1, 2) {
+            s0 = rng.range(1, (1u64 << ms) * 3).min(maxp);
+        }
+        for _ in 0..k {
+            let sh = rng.below(ms + 3 * d);
+            s0 = (s0 + rng.below(1 + (maxp >> sh))).min(maxp);
+            let sh2 = rng.below(ms + 3 * d);
+            let e = (s0 + rng.below(1 + (maxp >> sh2))).min(maxp);
+            let a = off;
+            off += rng.range(1, 5000);
+            recs.push(format!("{s0}:{e}:{a}:{off}"));
+        }
+        w.push("csil", vec![ms.to_string(), d.to_string(), if recs.is_empty() { "_".into() } else { recs.join(",") }]);
+    }
     // arbitrary structurally valid BAI / gzi indexes (modelled byte for byte), fai / crai (oracle)
     let n = if thorough { 3000 } else { 150 };
     for _ in 0..n {
@@ -666,6 +689,38 @@ fn run_idxrt(kind: &str, seed: u64) -> Obs {
     }
 }
 
+/// CSI loffsets as they read back: records s:e:a:b (one reference, file order) through the
+/// Indexer, the CSI writer and the CSI reader; obs = id=loffset per bin in bin order.
+fn run_csil(c: &Case) -> Obs {
+    let (ms, d) = (c.u(0) as u8, c.u(1) as u8);
+    let recs: Vec<Vec<u64>> = if c.args[2] == "_" {
+        vec![]
+    } else {
+        c.args[2].split(',').map(|r| r.split(':').map(|x| x.parse().unwrap()).collect()).collect()
+    };
+    let mut ix = Indexer::<BinnedIndex>::new(ms, d);
+    for r in &recs {
+        ix.add_record(Some((0, pos(r[0]), pos(r[1]), true)), Chunk::new(VP::from(r[2]), VP::from(r[3]))).unwrap();
+    }
+    let index: csi::Index = ix.build(1);
+    let mut w = csi::io::Writer::new(Vec::new());
+    if let Err(e) = w.write_index(&index) {
+        return Obs::fail(format!("Err:{:?}", e.kind()), "csi-write-error", format!("{e}"));
+    }
+    let buf = w.into_inner().finish().unwrap();
+    let back = match csi::io::Reader::new(Cursor::new(buf)).read_index() {
+        Ok(i) => i,
+        Err(e) => return Obs::fail("Err", "csi-read-error", format!("{e} {}", c.line())),
+    };
+    let rs = &back.reference_sequences()[0];
+    let obs: Vec<String> = rs
+        .bins()
+        .keys()
+        .map(|id| format!("{id}={}", rs.index().get(id).map(|v| u64::from(*v)).unwrap_or(0)))
+        .collect();
+    Obs::ok(if obs.is_empty() { "_".into() } else { obs.join(",") }, recs.len() >= 3)
+}
+
 fn run_bai(c: &Case) -> Obs {
     use noodles_csi::binning_index::index::reference_sequence::Metadata;
     let unplaced: Option<u64> = if c.args[0] == "-" { None } else { Some(c.args[0].parse().unwrap()) };
@@ -844,6 +899,7 @@ fn run(c: &Case) -> Obs {
             Obs::ok(fmt_chunks(&out), cs.len() >= 2).with_verdict(r)
         }
         "idxrt" => run_idxrt(&c.args[0], c.u(1)),
+        "csil" => run_csil(c),
         "bai" => run_bai(c),
         "gzi" => run_gzi(c),
         "fai" => run_fai(c.u(0)),
